@@ -1,4 +1,5 @@
 import LoguruModel.Emit.Lemmas
+import LoguruModel.Emit.NestedLemmas
 /-
 C04 – a failing handler never breaks the caller, the other handlers, or itself.
 Only the property theorems and their non-vacuity examples live here.  Every statement is about
@@ -227,6 +228,54 @@ theorem step_keeps_handlers_usable (env : Env) (ht : StderrTame env) (n : Nat) (
     AllGood (stepW env n w op).w.reg ∧ (stepW env n w op).res ≠ .blocked :=
   stepW_good env ht n w op hg
 
+/-! ### re-entrant sinks at the level of the whole registry (`Emit/Nested.lean`): the sink's
+`logger.info(...)` is a whole `_log` loop over ALL handlers, nested to any depth -/
+
+/-- a logging call that reaches a busy handler (we are inside its sink: marker set) leaves the registry
+    untouched and is answered with RuntimeError – reported or raised as `catch` says -/
+theorem nested_reentry_detected (env : Env) (innerLog : Nat → Reg → NRet) (k j : Nat) (reg : Reg)
+    (c : Cfg) (s : HState) (hk : reg[k]? = some (c, s)) (hm : s.marker = true)
+    (hlv : ¬ c.level > env.level j) (hpre : runPre env c j Gen.preLockStages = .pass) :
+    (emitAt env innerLog k j reg).reg = reg ∧
+    (emitAt env innerLog k j reg).ev = (handle env c j s .runtimeError).ev ∧
+    (emitAt env innerLog k j reg).res = (handle env c j s .runtimeError).res :=
+  emitAt_busy env innerLog k j reg c s hk hm hlv hpre
+
+/-- STATE RESTORATION for nested logging: whatever sinks log from inside sinks (depth `n`, any fault
+    oracle), as long as locks are only held together with their marker (true of every reachable state),
+    a `_log` loop never blocks and gives back every handler with exactly the lock, marker, stopped,
+    worker and config it had – position by position (induction over depth, positions and inner calls) -/
+theorem nested_log_restores_everything (env : Env) (n i : Nat) (reg : Reg) (hi : LockInv reg) :
+    (loopN env n i reg).res ≠ .blocked ∧ (loopN env n i reg).reg.map ctl = reg.map ctl :=
+  loopN_innerLogOk env n i reg hi
+
+/-- … hence from usable handlers to usable handlers -/
+theorem nested_log_keeps_all_usable (env : Env) (n i : Nat) (reg : Reg) (hg : AllGood reg) :
+    AllGood (loopN env n i reg).reg ∧ (loopN env n i reg).res ≠ .blocked :=
+  loopN_good env n i reg hg
+
+/-- BRIDGE between the two model layers: when no handler's sink calls the logger for message `i`, the
+    registry-level handler loop IS the handler-level one (so every theorem above about `logLoop`
+    speaks about `loopN` too) … -/
+theorem layers_agree (env : Env) (n i : Nat) (reg : Reg) (hre : ∀ p ∈ reg, env.reenter i p.1.id = []) :
+    loopN env n i reg = ⟨(logLoop env n i reg).reg, (logLoop env n i reg).ev, (logLoop env n i reg).res⟩ :=
+  loopN_eq_logLoop env n i reg hre
+
+/-- … in particular it refines the specification's loop -/
+theorem nested_log_refines_spec (env : Env) (n i : Nat) (reg : Reg) (hq : AllQuiet reg)
+    (hre : ∀ p ∈ reg, env.reenter i p.1.id = []) :
+    loopN env n i reg = ⟨(specLoop env i reg).reg, (specLoop env i reg).ev, (specLoop env i reg).res⟩ := by
+  rw [layers_agree env n i reg hre, log_loop_characterised env n i reg hq hre]
+
+/-- the history theorem with registry-level re-entrancy: for every set of added handlers, every history
+    and every fault oracle (stderr tame) no operation blocks and all registered handlers stay in
+    working order -/
+theorem nested_history_keeps_handlers_usable (env : Env) (ht : StderrTame env) (n : Nat)
+    (cfgs : List Cfg) (ops : List Op) :
+    AllGood (runWN env n ops (cfgs.foldl (fun w c => addW c w) {})).1.reg ∧
+    Res.blocked ∉ (runWN env n ops (cfgs.foldl (fun w c => addW c w) {})).2.2 :=
+  runWN_good env ht n ops _ (addAll_good cfgs {} (by intro p hp; simp at hp))
+
 /-! ### non-vacuity: concrete environments meeting the hypotheses, evaluated by the kernel -/
 
 /-- handler 1's `format_map` raises KeyError for message 0; handler 2's stream fails to flush -/
@@ -272,5 +321,12 @@ example :
     let w : World := { reg := exReg, minLevel := some 0 }
     (removeW env 1 9 w).res = .raised .osError ∧ (removeW env 1 9 w).w.reg.map (fun p => p.1.id) = [0, 2] := by
   decide
+
+/-- registry-level re-entrancy: message 5 makes handler 1's sink log 6 and 7 through the logger; handlers
+    0 and 2 receive 6 and 7 (0 before, 2 after handler 1's RuntimeError each time), then 5 goes on -/
+example : (loopN exEnv 2 5 exReg).reg.map (fun p => p.2.sink) = [[5, 6, 7], [5], [6, 7, 5]] ∧
+    (loopN exEnv 2 5 exReg).ev =
+      [.report 1 (some 6) .runtimeError false .emit, .report 1 (some 7) .runtimeError false .emit] ∧
+    (loopN exEnv 2 5 exReg).res = .ok := by decide
 
 end C04
